@@ -1,1 +1,99 @@
-fn main() {}
+//! mon-reg — C07: signer registration requires a genuine, pool-bound, stake-bound key.
+//!
+//! `mon-reg C07 --tier quick|thorough [--replay FILE]`
+mod agg;
+mod eval;
+mod gen;
+mod sub;
+mod world;
+
+use vcore::Monitor;
+
+const RULE: &str = "ground truth by construction: the harness owns every cold / KES / BLS secret key and keeps a ledger of everything it signed; a conjunct holds for a submission iff the submitted VALUES are in the ledger with the right binding (certificate tuple signed by the cold key it carries; KES signature made by the key named in the certificate over exactly vk||pop at true evolution t with |t-announced|<=1; (vk,pop) a generated pair; bech32(blake2b-224(cold vk)) in the round's distribution; vk not yet registered). Oracle per submission: accepted => all conjuncts; all conjuncts => accepted; returned party id == derived pool id; stake read back from the closed registry == distribution[derived pool]; registry unchanged by a rejection. Workload per shard: 2-6 pools (+ sentinel, + attacker outside the distribution), 2 certificates and 2 BLS keys per pool; valid registrations; per-component mutations (bit flips / value edits of each certificate field and its signature, cold key swap, re-certification by other cold keys, KES signature bit flips / other period / other key / other messages / missing, vk / pop / pop-half swaps and point negations with and without re-signing, claimed party ids, no-certificate forms, distribution variants incl. absent / zero / registrant's own stake value, duplicates in stateful rounds), announced-evolution sweeps {0,t-2..t+2,61..67,2^32-1,2^32+t,u64max-1,u64max} at true evolutions incl. 0 and 63, and splices of every ordered pair of valid registrations (each single component, 9 groups, random subsets; thorough: all 1022 subsets for some pairs). Every case goes through KeyRegWrapper::register (entry 1) and, re-expressed with a chain KES period = certificate start + announced and a perturbed registrant kes_evolutions field, through the aggregator's MithrilSignerRegistrationVerifier::verify (entry 2) and MithrilSignerRegistrationLeader::register_signer (entry 3: no round / closed round / other epoch / decoy round with distorted distribution before the real one / second submission; stored record read back); entry 2-3 add chain periods behind / at / after the certificate start and an observer without KES period. Non-trivial = at least one conjunct false by construction (an acceptance would be a violation); distinct = distinct (entry point, class, submission values, distribution, chain period).";
+
+fn run_shard(shard: u64, m: &mut Monitor, only: Option<(String, usize)>) {
+    let mut rng = m.rng("world", shard);
+    let n_pools = 2 + (shard as usize % 5);
+    let mut setup = gen::build_setup(&mut rng, n_pools);
+    let sz = gen::sizes(m.tier, &mut rng);
+    let cases = gen::cases(&mut setup, &mut rng, &sz);
+    // entry 2 / 3 cases: the entry-1 cases re-expressed with a chain period, plus chain-specific ones
+    let mut rng2 = m.rng("entry2", shard);
+    let mut cases2: Vec<eval::Case> = cases.iter().filter_map(|c| agg::to_entry2(c, &mut rng2)).collect();
+    cases2.extend(gen::cases_chain(&mut setup, &mut rng2));
+    if only.is_none() {
+        m.count(&format!("worlds/pools={n_pools}"));
+        m.count_n("ledger/genuine_certificates", setup.w.genuine_oc.len() as u64);
+        m.count_n("ledger/genuine_kes_signatures", setup.w.genuine_kes.len() as u64);
+        m.count_n("ledger/genuine_vk_pop_pairs", setup.w.genuine_pop.len() as u64);
+    }
+    let rt = tokio::runtime::Builder::new_current_thread().build().expect("tokio runtime");
+    let sentinel_rec = agg::sentinel_record(&setup.sentinel, 1, &setup.w);
+    let mut cache = eval::Cache::default();
+    let want = |e: &str, i: usize| match &only {
+        None => true,
+        Some((oe, oi)) => oe == e && *oi == i,
+    };
+    for (i, c) in cases.iter().enumerate() {
+        if want("KeyRegWrapper::register", i) {
+            let o = eval::run_entry1(&setup.w, c, &mut cache, m, shard, i);
+            if only.is_some() {
+                println!("replayed shard {shard} case {i} class {} through KeyRegWrapper::register -> {o}", c.class);
+            }
+        }
+    }
+    for (i, c) in cases2.iter().enumerate() {
+        if want("MithrilSignerRegistrationVerifier::verify", i) {
+            let o = agg::run_entry2(&setup.w, c, &rt, m, shard, i, sentinel_rec.as_ref());
+            if only.is_some() {
+                println!("replayed shard {shard} case {i} class {} through MithrilSignerRegistrationVerifier::verify -> {o}", c.class);
+            }
+        }
+        // the leader runs 5 submissions per case: every non-splice case, every 4th splice
+        let leader_case = !c.class.starts_with("splice") || i % 4 == 0;
+        if (only.is_none() && leader_case) || (only.is_some() && want("MithrilSignerRegistrationLeader::register_signer", i)) {
+            let o = agg::run_entry3(&setup.w, c, &rt, m, shard, i);
+            if only.is_some() {
+                println!("replayed shard {shard} case {i} class {} through MithrilSignerRegistrationLeader::register_signer -> {o}", c.class);
+            }
+        }
+    }
+}
+
+fn main() {
+    let args = vcore::parse_args();
+    vcore::install_panic_hook();
+    let mut mon = Monitor::new(&args);
+    if args.prop != "C07" {
+        eprintln!("mon-reg: unknown property {}", args.prop);
+        std::process::exit(2);
+    }
+    if let Err(e) = world::self_check() {
+        mon.inconclusive(&e);
+    }
+    if let Some(f) = &args.replay {
+        // the replay file names (seed, tier, shard, entry, case index): the shard is regenerated
+        // deterministically and only that case is run and judged again
+        let doc: serde_json::Value = serde_json::from_str(&std::fs::read_to_string(f).expect("replay file")).expect("replay json");
+        let r = &doc["replay"];
+        let shard = r["shard"].as_u64().expect("shard");
+        let idx = r["case_index"].as_u64().expect("case_index") as usize;
+        let entry = r["entry"].as_str().unwrap_or("KeyRegWrapper::register").to_string();
+        let tier = if doc["tier"].as_str() == Some("thorough") { vcore::Tier::Thorough } else { vcore::Tier::Quick };
+        let seed = doc["seed"].as_u64().unwrap_or(args.seed);
+        let mut m = Monitor::with(&args.prop, tier, seed);
+        run_shard(shard, &mut m, Some((entry, idx)));
+        m.finish(RULE, ASSUMPTIONS, 0);
+    }
+    let shards = args.tier.pick(16, 128);
+    vcore::run_shards(&mut mon, shards, vcore::default_threads(), |s, m| run_shard(s, m, None));
+    mon.extra.insert("allow_skip_signer_certification".into(), serde_json::json!(false));
+    mon.finish(RULE, ASSUMPTIONS, 500);
+}
+
+const ASSUMPTIONS: &[&str] = &[
+    "Ed25519, Sum6Kes and BLS unforgeability: a value that is not in the harness' ledger of genuinely made signatures / key pairs is taken to be invalid (the adversary is structural, not cryptanalytic)",
+    "reference primitives for building the material: ed25519-dalek (cold key signatures over kes_vk||issue_be||start_be), kes-summed-ed25519 (Sum6Kes keygen/update/sign), blake2 + bech32 (pool id), mithril-stm Initializer::new (BLS key generation only)",
+    "mithril-common is built without allow_skip_signer_certification and without future_snark",
+    "entry 2 judges against announced := chain KES period - certificate start period (saturating), the value the aggregator derives; the registrant's own kes_evolutions field must be ignored there",
+];
